@@ -44,11 +44,18 @@ Step(e) ==
   \/ /\ e.op = "reset_filt" /\ ResetFiltration(e.f, e.d)
   \/ /\ e.op = "make_non_decreasing" /\ MakeNonDecreasing /\ act'.ret = e.ret
   \/ /\ e.op = "expansion" /\ Expansion(e.d)
+  \/ /\ e.op = "load" /\ K' = KOf(e.k) /\ act' = [op |-> "load"]     \* arbitrary complex (order / schedule traces)
+  \/ /\ e.op = "extend" /\ ExtendFiltration
+     /\ LET Vs == {s \in Dom : Dim(s) = 0}  mn == Min({K[s] : s \in Vs})  mx == Max({K[s] : s \in Vs}) IN
+        /\ e.min = mn /\ e.max = mx
+        /\ \A i \in DOMAIN e.dec : LET x == e.dec[i]  d == Decode4(x.f4, mn, mx) IN
+              x.t = d.t /\ (d.t # "EXTRA" => x.v4 = d.v4)
   \/ /\ e.op = "edge_as_flag" /\ InsertEdgeAsFlag(e.u, e.v, e.f, e.d)
      /\ SetOfSets(e.added) = EdgeAsFlagAdded(e.u, e.v, e.d) /\ Len(e.added) = Cardinality(EdgeAsFlagAdded(e.u, e.v, e.d))
 
 TraceInit == K = <<>> /\ act = [op |-> "init"] /\ l = 1
 TraceNext == /\ l <= Len(Tr)
+             /\ ~Has(Tr[l], "off_lattice")
              /\ l' = l + 1
              /\ Step(Tr[l])
              /\ K' = KOf(Tr[l].k)
